@@ -299,7 +299,7 @@ Section Hash.
   Definition script_data_hash (sd : script_data) : list Z := H (script_data_preimage sd).
 
   (* the ledger's script-integrity preimage: redeemers (or the empty map), the datums as they
-     appeared (nothing when absent), the language views (the empty map when there are no
+     appeared / as the witness set serialises them (nothing when absent), the language views (the empty map when there are no
      redeemers or no views) *)
   Definition ledger_preimage (red : option (list Z)) (datums : option (list Z)) (views : option (list Z)) : list Z :=
     match red with
@@ -311,14 +311,14 @@ Section Hash.
   Lemma preimage_formula_proof wr wd lvo sd :
     build_for wr wd lvo = Some sd ->
     script_data_hash sd =
-    H (ledger_preimage (option_map enc_redeemers wr) wd (option_map enc_language_views lvo)).
+    H (ledger_preimage (option_map enc_redeemers wr) (option_map enc_datums wd) (option_map enc_language_views lvo)).
   Proof.
     unfold build_for, script_data_hash, script_data_preimage, ledger_preimage.
     destruct wr as [r|], wd as [d|], lvo as [m|]; cbn [is_some negb andb option_map];
       intros E; inversion E; subst; reflexivity.
   Qed.
 
-  Lemma none_when_empty_proof wr wd lvo : build_for wr wd lvo = None <-> wr = None /\ wd = None.
+  Lemma none_when_empty_proof wr (wd : option kdatums) lvo : build_for wr wd lvo = None <-> wr = None /\ wd = None.
   Proof.
     unfold build_for. destruct wr, wd; cbn [is_some negb andb]; split; intros E;
       try discriminate; try (destruct E; discriminate); auto.
